@@ -204,7 +204,7 @@ theorem headerOnce_link {α : Type} (chk : Bool) (d : DecHist.Dec) (onFirst : RE
         runExact (DecHist.headerOnce chk d onFirst onErr k) s.rest = runExact (k h d') s1.rest
     | .err e => d.hdr = none ∧
         ((s.rest = [] ∧ e = .eof ∧ runExact (DecHist.headerOnce chk d onFirst onErr k) s.rest = runExact (onFirst .eof) []) ∨
-         (∃ e' r, errC e' = e ∧ e'.endsIteration = true ∧
+         (∃ e' r, s.rest ≠ [] ∧ errC e' = e ∧ e'.endsIteration = true ∧
             runExact (DecHist.headerOnce chk d onFirst onErr k) s.rest = runExact (onErr e' { d with moved := true }) r))
     | .panic => False
     | .hang => False := by
@@ -227,15 +227,15 @@ theorem headerOnce_link {α : Type} (chk : Bool) (d : DecHist.Dec) (onFirst : RE
       dsimp only
       refine ⟨trivial, ?_⟩
       apply fileHeaderH_wp (Φ := fun x => (s.rest = [] ∧ errBC e = .eof ∧ x = runExact (onFirst .eof) []) ∨
-         (∃ e' r, errC e' = errBC e ∧ e'.endsIteration = true ∧ x = runExact (onErr e' { d with moved := true, hdr := none }) r))
+         (∃ e' r, s.rest ≠ [] ∧ errC e' = errBC e ∧ e'.endsIteration = true ∧ x = runExact (onErr e' { d with moved := true, hdr := none }) r))
       · intro hnil
         rw [hnil] at hB
         cases hB
         exact Or.inl ⟨hnil, rfl, rfl⟩
-      · intro e' r _ he hends
+      · intro e' r hne he hends
         rw [hB] at he
         cases he
-        exact Or.inr ⟨e', r, errC_eq e', hends, rfl⟩
+        exact Or.inr ⟨e', r, hne, errC_eq e', hends, rfl⟩
       · intro h rest he
         rw [hB] at he
         cases he
@@ -272,7 +272,7 @@ theorem discard_link {α : Type} (fl : DecProg.St → DecProg.Err → Prog α) (
       s.rest.length < fuelC → ds ≤ st.cur + fuelH →
     match discardMessages fuelC s with
     | .ok s' => ∃ st', st'.evs = st.evs ∧ s'.rest.length ≤ s.rest.length ∧ s'.o = s.o ∧ (DecApi.IsBytes s.rest → DecApi.IsBytes s'.rest) ∧
-        (st.crc = s.q.crc16 → st'.crc = s'.q.crc16) ∧
+        (st.crc = s.q.crc16 → st'.crc = s'.q.crc16) ∧ s'.q.err = s.q.err ∧
         runExact (DecHist.discard fl s.o.chk ds fuelH st k) s.rest = runExact (k st') s'.rest
     | .err e => e = .eof ∧ ∃ st' e' r, st'.evs = st.evs ∧
         runExact (DecHist.discard fl s.o.chk ds fuelH st k) s.rest = runExact (fl st' (.io e')) r
@@ -314,8 +314,8 @@ theorem discard_link {α : Type} (fl : DecProg.St → DecProg.Err → Prog α) (
         cases discardMessages fuelC _ with
         | ok s' =>
           dsimp only
-          rintro ⟨st', h1, h2, h3, h4, h5, h6⟩
-          refine ⟨st', h1, ?_, h3, ?_, ?_, h6⟩
+          rintro ⟨st', h1, h2, h3, h4, h5, h7, h6⟩
+          refine ⟨st', h1, ?_, h3, ?_, ?_, h7, h6⟩
           · simp only [List.length_drop] at h2; omega
           · intro hb; exact h4 (IsBytes.drop' hb n)
           · intro hc; apply h5; show (if s.o.chk then _ else _) = (if s.o.chk then _ else _); rw [hc]
@@ -330,7 +330,7 @@ theorem discard_link {α : Type} (fl : DecProg.St → DecProg.Err → Prog α) (
     · rw [if_neg hlt]
       dsimp only
       have hnH : ¬ st.cur < ds := by rw [hcur, ← hd]; exact hlt
-      refine ⟨st, rfl, Nat.le_refl _, rfl, id, id, ?_⟩
+      refine ⟨st, rfl, Nat.le_refl _, rfl, id, id, rfl, ?_⟩
       cases fuelH with
       | zero => simp [DecHist.discard]
       | succ f => simp [DecHist.discard, hnH]
@@ -404,7 +404,7 @@ theorem finish_dead (d : DecHist.Dec) (eH : DecHist.HErr) (hd : d.err = some eH)
 /-- (D')'s decoder object `d` and (C)'s `a` between two calls, outside a sequence's records (the remaining stream of (D') is
 `a.d.rest`): options, no sticky error, "a byte was consumed", the `sync.Once` and the header it decoded, position 0 in the
 sequence, running checksum 0 -/
-structure Rel (o : Opts) (done : List (Out × List Event)) (d : DecHist.Dec) (a : Api) : Prop where
+structure Rel (o : Opts) (fu : Nat) (done : List (Out × List Event)) (d : DecHist.Dec) (a : Api) : Prop where
   opts : a.d.o = o
   chk : d.chk = o.chk
   err : a.d.q.err = none
@@ -429,6 +429,8 @@ structure Rel (o : Opts) (done : List (Out × List Event)) (d : DecHist.Dec) (a 
   /-- the events so far are those of completed `Decode` calls: the reconstruction `apiOf` stands at a sequence boundary -/
   evs : ∃ tt, d.st.evs.reverse.foldl iStep { t := St.fresh o [] } = { t := tt, done := done, pend := [], bad := false } ∧
     tt.o = o ∧ tt.q = {} ∧ tt.look = {}
+  /-- the bound on the sequences `CheckIntegrity` walks exceeds what is left of the stream -/
+  fuel : a.d.rest.length < fu
 
 /-- the calls the link covers: everything but `PeekFileId`, `DecodeWithContext` cancelled while it runs, and `CheckIntegrity` -/
 def linked : DecHist.Op → Bool
@@ -439,14 +441,40 @@ def linked : DecHist.Op → Bool
   | .next => true
   | _ => false
 
-theorem Rel.new (o : Opts) (bs : List Nat) (hb : DecApi.IsBytes bs) (hlen : bs.length < 4294967296) :
-    Rel o [] { chk := o.chk } (Api.fresh o bs) :=
+/-- the call lists the link covers: linked calls, then possibly one `CheckIntegrity` (the program of (D') ends with it: the
+reader has to be re-seeked) -/
+def linkedL : List DecHist.Op → Bool
+  | [] => true
+  | op :: ops => (linked op && linkedL ops) || (decide (op = .checkIntegrity) && ops.isEmpty)
+
+theorem linkedL_tail {op : DecHist.Op} {ops : List DecHist.Op} (h : linkedL (op :: ops) = true) : linkedL ops = true := by
+  simp only [linkedL, Bool.or_eq_true, Bool.and_eq_true, decide_eq_true_eq, List.isEmpty_iff] at h
+  rcases h with h | h
+  · exact h.2
+  · rw [h.2]; rfl
+
+theorem linkedL_head {op : DecHist.Op} {ops : List DecHist.Op} (h : linkedL (op :: ops) = true) :
+    linked op = true ∨ (op = .checkIntegrity ∧ ops = []) := by
+  simp only [linkedL, Bool.or_eq_true, Bool.and_eq_true, decide_eq_true_eq, List.isEmpty_iff] at h
+  rcases h with h | h
+  · exact Or.inl h.1
+  · exact Or.inr h
+
+theorem linkedL_of_all {ops : List DecHist.Op} (h : ∀ op ∈ ops, linked op = true) : linkedL ops = true := by
+  induction ops with
+  | nil => rfl
+  | cons op ops ih =>
+    simp only [linkedL, Bool.or_eq_true, Bool.and_eq_true]
+    exact Or.inl ⟨h op (by simp), ih (fun x hx => h x (by simp [hx]))⟩
+
+theorem Rel.new (o : Opts) (fu : Nat) (bs : List Nat) (hb : DecApi.IsBytes bs) (hlen : bs.length < 4294967296) (hfu : bs.length < fu) :
+    Rel o fu [] { chk := o.chk } (Api.fresh o bs) :=
   ⟨rfl, rfl, rfl, rfl, hb, rfl, rfl, rfl, fun h => absurd rfl h, rfl, hlen, rfl, rfl, rfl, rfl, rfl, rfl, rfl, rfl,
-    ⟨St.fresh o [], rfl, rfl, rfl, rfl⟩⟩
+    ⟨St.fresh o [], rfl, rfl, rfl, rfl⟩, hfu⟩
 
 /-- after a successful `decodeFileHeaderOnce` inside a call that leaves the decoder behind the header -/
-theorem Rel.afterHeader {o : Opts} {done : List (Out × List Event)} {d : DecHist.Dec} {a : Api} (hr : Rel o done d a) {h : DecProg.Hdr} {d' : DecHist.Dec} {s1 : St}
-    (hp : HdrPost d a.d h d' s1) (r : DecHist.OpRes) : Rel o done { d' with res := r :: d'.res } (a.advance s1) := by
+theorem Rel.afterHeader {o : Opts} {fu : Nat} {done : List (Out × List Event)} {d : DecHist.Dec} {a : Api} (hr : Rel o fu done d a) {h : DecProg.Hdr} {d' : DecHist.Dec} {s1 : St}
+    (hp : HdrPost d a.d h d' s1) (r : DecHist.OpRes) : Rel o fu done { d' with res := r :: d'.res } (a.advance s1) := by
   have hlen1 : s1.rest.length ≤ a.d.rest.length := by
     by_cases hn : d.hdr = none
     · have := (hp.fresh hn).2; omega
@@ -457,7 +485,8 @@ theorem Rel.afterHeader {o : Opts} {done : List (Out × List Event)} {d : DecHis
     by show s1.q.ts = 0; rw [hp.qts, hr.qts], by show s1.q.lastOff = 0; rw [hp.qoff, hr.qoff],
     by show s1.q.acc = []; rw [hp.qacc, hr.qacc], by show s1.q.msgs = []; rw [hp.qmsgs, hr.qmsgs],
     by show s1.q.fileId = none; rw [hp.qfid, hr.qfid], by show d'.st.defs = []; rw [hp.defs, hr.defs],
-    by show d'.st.descs = []; rw [hp.descs, hr.descs], by show ∃ tt, d'.st.evs.reverse.foldl _ _ = _ ∧ _; rw [hp.evs]; exact hr.evs⟩
+    by show d'.st.descs = []; rw [hp.descs, hr.descs], by show ∃ tt, d'.st.evs.reverse.foldl _ _ = _ ∧ _; rw [hp.evs]; exact hr.evs,
+    by show s1.rest.length < fu; have := hr.fuel; omega⟩
   · show d'.moved = !(a.n + (a.d.rest.length - s1.rest.length) == 0)
     by_cases hn : d.hdr = none
     · obtain ⟨h1, h2⟩ := hp.fresh hn
@@ -495,11 +524,11 @@ theorem hdrFail_res (o : Opts) (done : List (Out × List Event)) (d : DecHist.De
     foldDone o (runExact (DecHist.hdrFail d ops e) r).evs = done ++ fitsC a (ops.map apiOp) :=
   failOp_res o done d ops d.st e r a ha hd
 
-theorem Rel.withRes {o : Opts} {done : List (Out × List Event)} {d : DecHist.Dec} {a : Api} (hr : Rel o done d a) (r : List DecHist.OpRes) : Rel o done { d with res := r } a :=
+theorem Rel.withRes {o : Opts} {fu : Nat} {done : List (Out × List Event)} {d : DecHist.Dec} {a : Api} (hr : Rel o fu done d a) (r : List DecHist.OpRes) : Rel o fu done { d with res := r } a :=
   ⟨hr.opts, hr.chk, hr.err, hr.derr, hr.bytes, hr.moved, hr.cur, hr.crc, hr.hm, hr.hdr, hr.small, hr.look, hr.qts, hr.qoff, hr.qacc,
-    hr.qmsgs, hr.qfid, hr.defs, hr.descs, hr.evs⟩
+    hr.qmsgs, hr.qfid, hr.defs, hr.descs, hr.evs, hr.fuel⟩
 
-theorem Rel.foldDone {o : Opts} {done : List (Out × List Event)} {d : DecHist.Dec} {a : Api} (hr : Rel o done d a) :
+theorem Rel.foldDone {o : Opts} {fu : Nat} {done : List (Out × List Event)} {d : DecHist.Dec} {a : Api} (hr : Rel o fu done d a) :
     foldDone o d.st.evs.reverse = done := by
   obtain ⟨tt, h, _⟩ := hr.evs
   unfold LinkH.foldDone
@@ -524,10 +553,10 @@ theorem step_lift_decode (a : Api) : DecApi.step a .decode =
 (`messagesH_link`), the file CRC, `reset()`; `ih` = the remaining calls from corresponding states -/
 theorem decode_link (o : Opts) (hfac : FacOK o.fac) (hbt : facBtOK o.fac = true) (hfd : facFdOK o.fac = true) (fuelCi : Nat)
     (ops : List DecHist.Op)
-    (ih : ∀ (done : List (Out × List Event)) (d : DecHist.Dec) (a : Api), Rel o done d a →
+    (fu : Nat) (ih : ∀ (done : List (Out × List Event)) (d : DecHist.Dec) (a : Api), Rel o fu done d a →
       (runExact (DecHist.run fuelCi ops d) a.d.rest).res.map tokH = d.res.reverse.map tokH ++ toksC a (ops.map apiOp) ∧
       foldDone o (runExact (DecHist.run fuelCi ops d) a.d.rest).evs = done ++ fitsC a (ops.map apiOp))
-    (done : List (Out × List Event)) (d : DecHist.Dec) (a : Api) (hr : Rel o done d a) :
+    (done : List (Out × List Event)) (d : DecHist.Dec) (a : Api) (hr : Rel o fu done d a) :
     (runExact (DecHist.headerOnce d.chk d (fun e => DecHist.hdrFail d ops (.io e)) (fun e d => DecHist.hdrFail d ops e) fun h d =>
         DecHist.messages (DecHist.failOp d ops) d.chk h.dataSize h.dataSize d.fileId d.st fun _ st =>
           DecHist.fileCrc (DecHist.failOp d ops) d.chk st fun c =>
@@ -632,12 +661,12 @@ theorem decode_link (o : Opts) (hfac : FacOK o.fac) (hbt : facBtOK o.fac = true)
           dsimp only
           obtain ⟨t', hf', hsh'⟩ := hF2
           have hr3 : r3.length + 2 = s2.rest.length := by rw [hrest2]; simp
-          have hrn : Rel o (done ++ [(.fit ⟨⟨h.size, h.protoVer, h.profileVer, h.dataSize, h.crc⟩, t'.q.msgs.reverse, lo + 256 * hi⟩,
+          have hrn : Rel o fu (done ++ [(.fit ⟨⟨h.size, h.protoVer, h.profileVer, h.dataSize, h.crc⟩, t'.q.msgs.reverse, lo + 256 * hi⟩,
               List.map normEvent ([] ++ evs2))]) (d'.renew (.seq h.size h.protoVer h.profileVer h.dataSize h.crc (lo + 256 * hi) st2.msgs :: st2.evs)
               (.fit h (lo + 256 * hi) st2.msgs))
               (a.advance (release (resetSeq { s2 with rest := r3, q := { s2.q with crc := lo + 256 * hi, crc16 := 0 } }))) := by
             refine ⟨by show s2.o = o; rw [ho2, hs1o], by show d'.chk = o.chk; rw [hp.chk, hr.chk], rfl, rfl, ?_, ?_, rfl, rfl,
-              fun hn => absurd rfl hn, rfl, ?_, rfl, rfl, rfl, rfl, rfl, rfl, rfl, rfl, ?_⟩
+              fun hn => absurd rfl hn, rfl, ?_, rfl, rfl, rfl, rfl, rfl, rfl, rfl, rfl, ?_, ?_⟩
             · show DecApi.IsBytes r3
               have := hi2.1
               rw [hrest2] at this
@@ -651,6 +680,8 @@ theorem decode_link (o : Opts) (hfac : FacOK o.fac) (hbt : facBtOK o.fac = true)
             · refine ⟨_, fold_snoc_seq _ _ _ _ _ hf' h.size h.protoVer h.profileVer h.dataSize h.crc (lo + 256 * hi) st2.msgs, ?_, rfl, rfl⟩
               show t'.o = o
               rw [hsh'.o, ho2, hs1o]
+            · show r3.length < fu
+              have := hr.fuel; omega
           have := ih _ _ _ hrn
           rw [show (a.advance (release (resetSeq { s2 with rest := r3, q := { s2.q with crc := lo + 256 * hi, crc16 := 0 } }))).d.rest = r3 from rfl] at this
           obtain ⟨ih1, ih2⟩ := this
@@ -664,7 +695,7 @@ theorem decode_link (o : Opts) (hfac : FacOK o.fac) (hbt : facBtOK o.fac = true)
     obtain ⟨_, hcase⟩ := hlk
     unfold decodeBody
     rw [hh]
-    rcases hcase with ⟨_, he, hrun⟩ | ⟨e', r, he, _, hrun⟩
+    rcases hcase with ⟨_, he, hrun⟩ | ⟨e', r, _, he, _, hrun⟩
     · rw [hrun]; subst he
       have hfo := hdrFail_res o done d ops (.io .eof) [] (a.advance (failHeader a.d (Res.err .eof : Res St)).1) rfl hr.foldDone
       exact ⟨by rw [hfo.1]; rfl, by rw [hfo.2]; rfl⟩
@@ -676,6 +707,135 @@ theorem decode_link (o : Opts) (hfac : FacOK o.fac) (hbt : facBtOK o.fac = true)
 
 /-! ### the sequencing theorem -/
 
+/-! ### `CheckIntegrity` -/
+
+/-- (C)'s `ciLoop` result as a token -/
+def ciTok : Nat × Res Unit → Tok
+  | (n, .ok _) => .integrity n none
+  | (n, .err e) => .integrity n (some e)
+  | (_, .panic) => .panic
+  | (_, .hang) => .hang
+
+/-- the loop of `CheckIntegrity` from the decoder's state (header possibly already decoded by a peek; `d.moved` ↔ `d.n ≠ 0`):
+(D')'s `ciLoop` ends with the verdict (C)'s `ciLoop` gives, and adds no event -/
+theorem ci_link (o : Opts) : ∀ (fuelH : Nat) (seq : Nat) (d : DecHist.Dec) (s : St) (posZero : Bool) (fuelC : Nat),
+    s.o.chk = true → s.q.err = none → s.q.crc16 = 0 → s.q.cur = 0 → DecApi.IsBytes s.rest →
+    (match d.hdr with
+      | none => s.q.hdrDone = false
+      | some h => s.q.hdrDone = true ∧ s.q.hdr = hdrOf h ∧ d.st.cur = 0 ∧ h.dataSize < 4294967296 ∧ d.st.crc = 0) →
+    d.moved = !posZero → (d.hdr ≠ none → d.moved = true) → s.rest.length < fuelH → s.rest.length < fuelC →
+    (runExact (DecHist.ciLoop fuelH seq d) s.rest).res.map tokH = d.res.reverse.map tokH ++ [ciTok (DecApi.ciLoop fuelC posZero seq s)] ∧
+    foldDone o (runExact (DecHist.ciLoop fuelH seq d) s.rest).evs = foldDone o d.st.evs.reverse := by
+  intro fuelH
+  induction fuelH with
+  | zero => intro seq d s pz fuelC _ _ _ _ _ _ _ _ hf; omega
+  | succ fuelH ih =>
+    intro seq d s pz fuelC hchk herr hcrc hcur hb hhdr hmoved hm hfH hfC
+    obtain ⟨fc, rfl⟩ : ∃ fc, fuelC = fc + 1 := ⟨fuelC - 1, by omega⟩
+    simp only [DecHist.ciLoop]
+    unfold DecApi.ciLoop
+    have hlk := headerOnce_link true d
+      (fun e => if d.moved ∧ e = .eof then DecHist.ciVerdict seq d d.st none else DecHist.ciVerdict seq d d.st (some (.io e)))
+      (fun e d => DecHist.ciVerdict seq d d.st (some e))
+      (fun h d => DecHist.discard (fun st e => DecHist.ciVerdict seq d st (some e)) true h.dataSize h.dataSize d.st fun st =>
+          DecHist.fileCrc (fun st e => DecHist.ciVerdict seq d st (some e)) true st fun _ =>
+            DecHist.ciLoop fuelH (seq + 1) { d with hdr := none, st := { st with cur := 0, crc := 0 } })
+      s hchk herr hcrc hcur hb hhdr
+    cases hh : headerOnce s with
+    | ok s1 =>
+      rw [hh] at hlk
+      obtain ⟨h, d', hp, hrun⟩ := hlk
+      rw [hrun]
+      dsimp only
+      have hc1 : s1.o.chk = true := by rw [hp.o, hchk]
+      have hlen1 : s1.rest.length ≤ s.rest.length := by
+        by_cases hn : d.hdr = none
+        · have := (hp.fresh hn).2; omega
+        · rw [(hp.old hn).2]; exact Nat.le_refl _
+      have hmv' : d'.moved = true := by
+        by_cases hn : d.hdr = none
+        · exact (hp.fresh hn).1
+        · rw [(hp.old hn).1]; exact hm hn
+      have hdl := discard_link (fun st e => DecHist.ciVerdict seq d' st (some e))
+        (fun st => DecHist.fileCrc (fun st e => DecHist.ciVerdict seq d' st (some e)) true st fun _ =>
+            DecHist.ciLoop fuelH (seq + 1) { d' with hdr := none, st := { st with cur := 0, crc := 0 } })
+        h.dataSize hp.small (fuelOf s1) h.dataSize s1 d'.st (by rw [hp.cur, hp.qcur]) (by rw [hp.qhdr]; rfl)
+        (by rw [hp.qcur]; omega) (by simp [fuelOf]) (by omega)
+      rw [hc1] at hdl
+      cases hdm : discardMessages (fuelOf s1) s1 with
+      | ok s2 =>
+        rw [hdm] at hdl
+        obtain ⟨st', hevs, hlen2, ho2, hb2, hcrc2, herr2, hrun2⟩ := hdl
+        rw [hrun2]
+        dsimp only
+        unfold DecHist.fileCrc
+        rw [decodeCRC_eq]
+        have hc2 : s2.o.chk = true := by rw [ho2, hc1]
+        have hcrcS : st'.crc = s2.q.crc16 := hcrc2 (by rw [hp.crc, hp.qcrc])
+        match hrest2 : s2.rest with
+        | [] =>
+          rw [runExact_read_short _ _ _ (by simp)]
+          simp [DecHist.ciVerdict, runExact, tokH, errH, errC, ciTok, hp.res, hevs, hp.evs]
+        | [x] =>
+          rw [runExact_read_short _ _ _ (by simp)]
+          simp [DecHist.ciVerdict, runExact, tokH, errH, errC, ciTok, hp.res, hevs, hp.evs]
+        | lo :: hi :: r3 =>
+          rw [runExact_read_ok _ _ _ (by simp)]
+          dsimp only
+          have hle : DecProg.le16 (List.take 2 (lo :: hi :: r3)) = lo + 256 * hi := rfl
+          have hd2 : List.drop 2 (lo :: hi :: r3) = r3 := rfl
+          rw [hle, hd2, hcrcS]
+          by_cases hc : s2.o.chk = true ∧ s2.q.crc16 ≠ lo + 256 * hi
+          · have hc' : true = true ∧ s2.q.crc16 ≠ lo + 256 * hi := ⟨rfl, hc.2⟩
+            rw [if_pos hc, if_pos hc']
+            simp [DecHist.ciVerdict, runExact, tokH, errH, errC, ciTok, hp.res, hevs, hp.evs]
+          · have hc' : ¬ (true = true ∧ s2.q.crc16 ≠ lo + 256 * hi) := fun hx => hc ⟨hc2, hx.2⟩
+            rw [if_neg hc, if_neg hc']
+            dsimp only
+            have hr3 : r3.length + 2 = s2.rest.length := by rw [hrest2]; simp
+            have := ih (seq + 1) { d' with hdr := none, st := { st' with cur := 0, crc := 0 } }
+              { s2 with rest := r3, q := { s2.q with crc := lo + 256 * hi, crc16 := 0, hdrDone := false, cur := 0 } } false fc
+              hc2 (by show s2.q.err = none; rw [herr2, hp.qerr]) rfl rfl
+              (by show DecApi.IsBytes r3; have := hb2 hp.bytes; rw [hrest2] at this; exact fun x hx => this x (by simp [hx]))
+              rfl (by show d'.moved = !false; rw [hmv']; rfl) (fun hn => absurd rfl hn)
+              (by show r3.length < fuelH; omega) (by show r3.length < fc; omega)
+            obtain ⟨i1, i2⟩ := this
+            refine ⟨?_, ?_⟩
+            · rw [i1]; simp [hp.res]
+            · rw [i2]; simp [hevs, hp.evs]
+      | err e =>
+        rw [hdm] at hdl
+        obtain ⟨he, st', e', r, hevs, hrun2⟩ := hdl
+        subst he
+        rw [hrun2]
+        simp [DecHist.ciVerdict, runExact, tokH, errH, errC, ciTok, hp.res, hevs, hp.evs]
+      | panic => rw [hdm] at hdl; exact hdl.elim
+      | hang => rw [hdm] at hdl; exact hdl.elim
+    | err e =>
+      rw [hh] at hlk
+      obtain ⟨hnone, hcase⟩ := hlk
+      have hnd : s.q.hdrDone = false := by rw [hnone] at hhdr; exact hhdr
+      rcases hcase with ⟨hnil, he, hrun⟩ | ⟨e', r, hne, he, _, hrun⟩
+      · rw [hrun]; subst he
+        cases hmvd : d.moved with
+        | true =>
+          have hpz : pz = false := by
+            cases pz with
+            | false => rfl
+            | true => rw [hmvd] at hmoved; cases hmoved
+          simp [hmvd, hpz, hnil, hnd, DecHist.ciVerdict, runExact, tokH, ciTok]
+        | false =>
+          have hpz : pz = true := by
+            cases pz with
+            | true => rfl
+            | false => rw [hmvd] at hmoved; cases hmoved
+          simp [hmvd, hpz, hnil, hnd, DecHist.ciVerdict, runExact, tokH, errH, errC, ciTok]
+      · rw [hrun]; subst he
+        have : s.rest.isEmpty = false := by cases hs : s.rest <;> simp_all
+        simp [this, DecHist.ciVerdict, runExact, tokH, errH, ciTok]
+    | panic => rw [hh] at hlk; exact hlk.elim
+    | hang => rw [hh] at hlk; exact hlk.elim
+
 theorem step_lift_peekHeader (a : Api) : DecApi.step a .peekHeader =
     (a.advance (stepPeekHeader a.d).1, (stepPeekHeader a.d).2.1, (stepPeekHeader a.d).2.2) := rfl
 theorem step_lift_discard (a : Api) : DecApi.step a .discard =
@@ -686,8 +846,8 @@ theorem step_lift_ctx (a : Api) (c : Bool) : DecApi.step a (.decodeCtx c) =
 /-- **state correspondence after each call**: from corresponding states, the results of the remaining calls correspond, and the
 FITs `apiOf`'s reconstruction rebuilds from (D')'s events are those (C)'s successful `Decode` calls return -/
 theorem run_link (o : Opts) (hfac : FacOK o.fac) (hbt : facBtOK o.fac = true) (hfd : facFdOK o.fac = true) (fuelCi : Nat) :
-    ∀ (ops : List DecHist.Op) (done : List (Out × List Event)) (d : DecHist.Dec) (a : Api), Rel o done d a →
-    (∀ op ∈ ops, linked op = true) →
+    ∀ (ops : List DecHist.Op) (done : List (Out × List Event)) (d : DecHist.Dec) (a : Api), Rel o fuelCi done d a →
+    linkedL ops = true →
     (runExact (DecHist.run fuelCi ops d) a.d.rest).res.map tokH = d.res.reverse.map tokH ++ toksC a (ops.map apiOp) ∧
     foldDone o (runExact (DecHist.run fuelCi ops d) a.d.rest).evs = done ++ fitsC a (ops.map apiOp) := by
   intro ops
@@ -699,8 +859,8 @@ theorem run_link (o : Opts) (hfac : FacOK o.fac) (hbt : facBtOK o.fac = true) (h
     exact hr.foldDone
   | cons op ops ih =>
     intro done d a hr hsub
-    have hsub' : ∀ op ∈ ops, linked op = true := fun x hx => hsub x (by simp [hx])
-    have hop := hsub op (by simp)
+    have hsub' : linkedL ops = true := linkedL_tail hsub
+    have hop := linkedL_head hsub
     unfold DecHist.run
     rw [hr.derr]
     dsimp only
@@ -731,7 +891,7 @@ theorem run_link (o : Opts) (hfac : FacOK o.fac) (hbt : facBtOK o.fac = true) (h
       | err e =>
         rw [hh] at hlk
         obtain ⟨_, hcase⟩ := hlk
-        rcases hcase with ⟨_, he, hrun⟩ | ⟨e', r, he, _, hrun⟩
+        rcases hcase with ⟨_, he, hrun⟩ | ⟨e', r, _, he, _, hrun⟩
         · rw [hrun]; subst he
           have hfo := hdrFail_res o done d ops (.io .eof) [] (a.advance (failHeader a.d (Res.err .eof : Res St)).1) rfl hr.foldDone
           exact ⟨by rw [hfo.1]; rfl, by rw [hfo.2]; rfl⟩
@@ -748,7 +908,7 @@ theorem run_link (o : Opts) (hfac : FacOK o.fac) (hbt : facBtOK o.fac = true) (h
         unfold stepDecodeCtx
         rw [hr.err]
         dsimp only
-        exact decode_link o hfac hbt hfd fuelCi ops (fun done d a h => ih done d a h hsub') done d a hr
+        exact decode_link o hfac hbt hfd fuelCi ops fuelCi (fun done d a h => ih done d a h hsub') done d a hr
       | true =>
         dsimp only [apiOp]
         rw [step_lift_ctx]
@@ -799,7 +959,7 @@ theorem run_link (o : Opts) (hfac : FacOK o.fac) (hbt : facBtOK o.fac = true) (h
         cases hdm : discardMessages (fuelOf s1) s1 with
         | ok s2 =>
           rw [hdm] at hdl
-          obtain ⟨st', hevs, hlen2, ho2, hb2, _, hrun2⟩ := hdl
+          obtain ⟨st', hevs, hlen2, ho2, hb2, _, _, hrun2⟩ := hdl
           rw [hrun2]
           dsimp only
           unfold DecHist.rdN
@@ -807,9 +967,9 @@ theorem run_link (o : Opts) (hfac : FacOK o.fac) (hbt : facBtOK o.fac = true) (h
           by_cases hl : 2 ≤ s2.rest.length
           · rw [if_pos hl, runExact_read_ok _ _ _ hl]
             dsimp only
-            have hr2 : Rel o done (d'.renew st'.evs .done) (a.advance { o := { s2.o with chk := a.d.o.chk }, rest := s2.rest.drop 2 }) := by
+            have hr2 : Rel o fuelCi done (d'.renew st'.evs .done) (a.advance { o := { s2.o with chk := a.d.o.chk }, rest := s2.rest.drop 2 }) := by
               refine ⟨?_, by show d'.chk = o.chk; rw [hp.chk, hr.chk], rfl, rfl, IsBytes.drop' (hb2 hp.bytes) 2, ?_, rfl, rfl,
-                fun hn => absurd rfl hn, rfl, ?_, rfl, rfl, rfl, rfl, rfl, rfl, rfl, rfl, ?_⟩
+                fun hn => absurd rfl hn, rfl, ?_, rfl, rfl, rfl, rfl, rfl, rfl, rfl, rfl, ?_, ?_⟩
               · show ({ s2.o with chk := a.d.o.chk } : Opts) = o
                 rw [ho2, hp.o, e0o, opts_restore, hr.opts]
               · show true = !(a.n + (a.d.rest.length - (s2.rest.drop 2).length) == 0)
@@ -820,6 +980,8 @@ theorem run_link (o : Opts) (hfac : FacOK o.fac) (hbt : facBtOK o.fac = true) (h
                 rw [List.length_drop]; have := hr.small; omega
               · show ∃ tt, st'.evs.reverse.foldl _ _ = _ ∧ _
                 rw [hevs, hp.evs]; exact hr.evs
+              · show (s2.rest.drop 2).length < fuelCi
+                rw [List.length_drop]; have := hr.fuel; omega
             have := ih _ _ _ hr2 hsub'
             rw [show (a.advance ({ o := { s2.o with chk := a.d.o.chk }, rest := s2.rest.drop 2 } : St)).d.rest = s2.rest.drop 2 from rfl] at this
             obtain ⟨ih1, ih2⟩ := this
@@ -849,7 +1011,7 @@ theorem run_link (o : Opts) (hfac : FacOK o.fac) (hbt : facBtOK o.fac = true) (h
       | err e =>
         rw [hh] at hlk
         obtain ⟨_, hcase⟩ := hlk
-        rcases hcase with ⟨_, he, hrun⟩ | ⟨e', r, he, _, hrun⟩
+        rcases hcase with ⟨_, he, hrun⟩ | ⟨e', r, _, he, _, hrun⟩
         · rw [hrun]; subst he
           have hfo := hdrFail_res o done d ops (.io .eof) [] (a.advance { s0 with o := { s0.o with chk := a.d.o.chk }, q := { s0.q with hdrDone := true, err := some .eof } }) rfl hr.foldDone
           exact ⟨by rw [hfo.1]; rfl, by rw [hfo.2]; rfl⟩
@@ -870,9 +1032,9 @@ theorem run_link (o : Opts) (hfac : FacOK o.fac) (hbt : facBtOK o.fac = true) (h
         have hc : (!d.moved) = true := by rw [hmv]; rfl
         simp only [if_pos hc, if_pos hn]
         rw [Api.advance_same]
-        have hr2 : Rel o done { d with err := none, res := .bool true :: d.res } a :=
+        have hr2 : Rel o fuelCi done { d with err := none, res := .bool true :: d.res } a :=
           ⟨hr.opts, hr.chk, hr.err, rfl, hr.bytes, hr.moved, hr.cur, hr.crc, hr.hm, hr.hdr, hr.small, hr.look, hr.qts, hr.qoff, hr.qacc,
-            hr.qmsgs, hr.qfid, hr.defs, hr.descs, hr.evs⟩
+            hr.qmsgs, hr.qfid, hr.defs, hr.descs, hr.evs, hr.fuel⟩
         obtain ⟨ih1, ih2⟩ := ih _ _ _ hr2 hsub'
         refine ⟨?_, ?_⟩
         · rw [ih1]; simp [tokH, tokC]
@@ -902,7 +1064,7 @@ theorem run_link (o : Opts) (hfac : FacOK o.fac) (hbt : facBtOK o.fac = true) (h
         | err e =>
           rw [hh] at hlk
           obtain ⟨_, hcase⟩ := hlk
-          rcases hcase with ⟨_, he, hrun⟩ | ⟨e', r, he, hends, hrun⟩
+          rcases hcase with ⟨_, he, hrun⟩ | ⟨e', r, _, he, hends, hrun⟩
           · rw [hrun]; subst he
             simp only [runExact]
             refine ⟨?_, ?_⟩
@@ -927,9 +1089,31 @@ theorem run_link (o : Opts) (hfac : FacOK o.fac) (hbt : facBtOK o.fac = true) (h
       unfold stepDecode
       rw [hr.err]
       dsimp only
-      exact decode_link o hfac hbt hfd fuelCi ops (fun done d a h => ih done d a h hsub') done d a hr
-    | decodeCtxAt k => cases hop
-    | peekFileId => cases hop
-    | checkIntegrity => cases hop
+      exact decode_link o hfac hbt hfd fuelCi ops fuelCi (fun done d a h => ih done d a h hsub') done d a hr
+    | decodeCtxAt k => exact absurd hop (by simp [linked])
+    | peekFileId => exact absurd hop (by simp [linked])
+    | checkIntegrity =>
+      have hnil : ops = [] := by
+        rcases hop with h | h
+        · exact absurd h (by simp [linked])
+        · exact h.2
+      subst hnil
+      dsimp only [apiOp]
+      have hstep : DecApi.step a .checkIntegrity = stepCheckIntegrity a := rfl
+      rw [hstep]
+      unfold stepCheckIntegrity
+      dsimp only
+      rw [hr.err]
+      dsimp only
+      have hci := ci_link o fuelCi 0 d { a.d with o := { a.d.o with chk := true } } (a.n == 0) (fuelOf a.d)
+        rfl hr.err hr.crc hr.cur hr.bytes hr.hdr hr.moved hr.hm hr.fuel (by simp [fuelOf])
+      rw [show ({ a.d with o := { a.d.o with chk := true } } : St).rest = a.d.rest from rfl] at hci
+      refine ⟨?_, ?_⟩
+      · rw [hci.1]
+        rcases DecApi.ciLoop (fuelOf a.d) (a.n == 0) 0 { a.d with o := { a.d.o with chk := true } } with ⟨n, r⟩
+        cases r <;> simp [ciTok, tokC, toksC_nil]
+      · rw [hci.2, hr.foldDone]
+        rcases DecApi.ciLoop (fuelOf a.d) (a.n == 0) 0 { a.d with o := { a.d.o with chk := true } } with ⟨n, r⟩
+        cases r <;> simp [isFit, fitsC_nil]
 
 end Fit.LinkH
